@@ -1,4 +1,5 @@
 import OPM.Model.ParseText
+import OPM.Lemmas.ParseLine
 /-! Helper lemma for C17/C18: the lines `str.splitlines` (model) produces contain no line-boundary character. -/
 namespace OPM.ParseText
 set_option linter.unusedSimpArgs false
@@ -32,5 +33,61 @@ theorem splitAux_noBreak (cur text : List Char) (h : ∀ c ∈ cur, isBreak c = 
     rcases List.mem_cons.mp hx with rfl | hx
     · simpa using hb
     · exact h x hx
+
+/-! the column the parser assigns is the indentation of the text -/
+
+theorem strip_nil_takeWhile {cs : List Char} (h : strip cs = []) : cs.takeWhile isSpace = cs := by
+  unfold strip stripL at h
+  have hd : cs.dropWhile isSpace = [] := by
+    cases hdw : cs.dropWhile isSpace with
+    | nil => rfl
+    | cons y t =>
+      have hy : isSpace y = false := by
+        have := List.head_dropWhile_not isSpace (l := cs) (by rw [hdw]; simp)
+        simpa [hdw] using this
+      rw [hdw] at h
+      unfold stripR at h
+      rw [List.reverse_cons, dropWhile_snoc_neg _ hy] at h
+      simp at h
+  have := List.takeWhile_append_dropWhile (p := isSpace) (l := cs)
+  rw [hd, List.append_nil] at this
+  exact this
+
+theorem scanLine_indent {cs : List Char} {s : Scan} (h : scanLine cs = some s) : s.indent = srcIndent cs := by
+  unfold scanLine at h
+  simp only at h
+  split at h
+  · cases h
+  · split at h
+    · cases h
+    · cases h; rfl
+
+theorem infoOf_src (fx fe : Bool) (uod : List String) (cs : List Char) (h : fe = true ∨ scannable cs = true) :
+    infoOf (parseLineE fx fe uod cs) = srcInfoOf (parseLineE fx fe uod cs) cs := by
+  unfold scannable at h
+  unfold srcInfoOf infoOf parseLineE
+  cases h1 : strip cs with
+  | nil => simp [blankNode, srcIndent, strip_nil_takeWhile h1]
+  | cons c t =>
+    rw [h1] at h
+    by_cases hc : c = '#'
+    · simp [hc, blankNode, srcIndent]
+    · cases h3 : scanLine cs with
+      | some s => simp [hc, scanLine_indent h3]
+      | none =>
+        rcases h with h | h
+        · simp [hc, h, blankNode, srcIndent]
+        · simp [hc, h3] at h
+
+theorem infos_eq_src (fx fe : Bool) (uod : List String) (text : List Char) (h : fe = true ∨ AllScannable text) :
+    (nodesOf fx fe uod text).map infoOf = srcInfos fx fe uod text := by
+  unfold nodesOf srcInfos
+  rw [List.map_map]
+  apply List.map_congr_left
+  intro cs hcs
+  apply infoOf_src
+  rcases h with h | h
+  · exact Or.inl h
+  · exact Or.inr (h cs hcs)
 
 end OPM.ParseText
